@@ -25,17 +25,22 @@ def hexVal (b : UInt8) : Option UInt8 :=
   else if 0x61 ≤ b && b ≤ 0x66 then some (b - 0x61 + 10)
   else none
 
-/-- `percent_encoding::PercentDecode` collected. -/
-def pctDecode : Bytes → Bytes
-  | [] => []
-  | [b] => [b]
-  | [b, c] => [b, c]
-  | b :: tl@(h :: l :: rest') =>
+/-- `percent_encoding::PercentDecode` collected; the counter is the number of bytes still to be
+skipped because they were consumed by an escape (keeps the recursion structural). -/
+def pctDecodeAux : Nat → Bytes → Bytes
+  | _, [] => []
+  | n + 1, _ :: rest => pctDecodeAux n rest
+  | 0, b :: rest =>
     if b = 0x25 then
-      match hexVal h, hexVal l with
-      | some hv, some lv => (hv * 16 + lv) :: pctDecode rest'
-      | _, _ => b :: pctDecode tl
-    else b :: pctDecode tl
+      match rest with
+      | h :: l :: _ =>
+        match hexVal h, hexVal l with
+        | some hv, some lv => (hv * 16 + lv) :: pctDecodeAux 2 rest
+        | _, _ => b :: pctDecodeAux 0 rest
+      | _ => b :: pctDecodeAux 0 rest
+    else b :: pctDecodeAux 0 rest
+
+def pctDecode (b : Bytes) : Bytes := pctDecodeAux 0 b
 
 /-- `parse.rs:297-299 decode`: percent-decode, then strict UTF-8. -/
 def decode (s : Str) : Except PErr Str :=
